@@ -210,7 +210,14 @@ def parse_units(reg, common):
             # follow from what parse() established
             reg.inline_loops[MSG + ":%s.__init__" % cls] = {"iter:forward_for": {"index": "_j", "invariant": [], "modifies": [],
                                                                                  "pure_calls": True}}
-    FF_LOOP = {"iter:forward_for": {"index": "_j", "invariant": ["forall(q, 0, _j, %s)" % FF_OK.replace("%s", "forward_for[q]")],
+    # the element predicate, one invariant per conjunct (each guarded by "is a dict"): four small inductive steps instead of
+    # one large one -- the conjunction is FF_OK
+    E = "forward_for[q]"
+    FF_PARTS = ["type(%s) == dict" % E,
+                "implies(type(%s) == dict, 'session' in %s and type(%s['session']) == int)" % (E, E, E),
+                "implies(type(%s) == dict, 'authid' in %s and (%s['authid'] is None or type(%s['authid']) == str))" % (E, E, E, E),
+                "implies(type(%s) == dict, 'authrole' in %s and type(%s['authrole']) == str)" % (E, E, E)]
+    FF_LOOP = {"iter:forward_for": {"index": "_j", "invariant": ["forall(q, 0, _j, %s)" % c for c in FF_PARTS],
                                     "modifies": [], "pure_calls": True}}
     FF_ENS = "implies(result.forward_for is not None, type(result.forward_for) == list and forall(q, 0, len(result.forward_for), %s))" \
         % FF_OK.replace("%s", "result.forward_for[q]")
